@@ -117,8 +117,13 @@ func (t *ReuseConnTransport) exchangeConnCtx(ctx context.Context, payload []byte
 	}
 	resChan := make(chan res, 1)
 
+	// The goroutine may outlive this call (ctx fires while it is still
+	// writing), and the caller releases payload when it returns. Give the
+	// goroutine its own copy.
+	payloadCopy := copyMsg(payload)
 	go func() {
-		resp, err := t.exchangeConn(payload, c)
+		resp, err := t.exchangeConn(payloadCopy, c)
+		pool.ReleaseBuf(payloadCopy)
 		resChan <- res{m: resp, err: err}
 		t.releaseConn(c, err)
 	}()
